@@ -86,6 +86,7 @@ def u_query_bulk(ctx, index):
   def havoc(fr):
     fr.locals['datapointsByMetric'] = DictLit({})
     hs.ip.note_write(fr.locals['datapointsByMetric'])
+  hs.ip.label_prefix = 'C02/'
   hs.ip.loops[(H + '.stringReceived', 0)] = LoopSpec('for metric in metrics', inv, havoc,
                                                        locals_modified=['metric'])
   hs.ip.run(H + '.stringReceived', [b'raw'], self_obj=handler)
